@@ -37,6 +37,7 @@ type Ctx struct {
 	fileShape     *fileReaderShape
 	expandedPred  map[*ssa.Call]bool
 	deepFacts     bool
+	normPath      bool
 	predPureCache map[*ssa.Function]bool
 	maskSh        *maskShape
 	callersOf     map[*ssa.Function][]ssa.CallInstruction
